@@ -375,6 +375,36 @@ class _StatementForms(ast.NodeTransformer):
         return node
 
 
+class _DropLocalAnnotations(ast.NodeTransformer):
+    """Normal form (behaviour-preserving): inside functions `x: T = v` is read as `x = v` and a bare `x: T` as nothing: annotating a local changes no behaviour,
+    and no rule should depend on whether a local carries an annotation.  Class-level annotated assignments (dataclass fields) are left alone."""
+
+    def __init__(self):
+        self.depth = 0
+
+    def visit_FunctionDef(self, node):
+        self.depth += 1
+        self.generic_visit(node)
+        self.depth -= 1
+        return node
+
+    visit_AsyncFunctionDef = visit_FunctionDef
+
+    def visit_ClassDef(self, node):
+        d, self.depth = self.depth, 0
+        self.generic_visit(node)
+        self.depth = d
+        return node
+
+    def visit_AnnAssign(self, node):
+        self.generic_visit(node)
+        if self.depth == 0:
+            return node
+        if node.value is None:
+            return ast.copy_location(ast.Pass(), node)
+        return ast.copy_location(ast.Assign(targets=[node.target], value=node.value), node)
+
+
 class _SplitOrGuards(ast.NodeTransformer):
     """Normal form (behaviour-preserving): `if a or b: S` where S always leaves the block (ends in return / raise / continue / break) and there is no else-arm is
     read as `if a: S` followed by `if b: S` (S a single return / raise / continue / break) -- exactly what short-circuit evaluation does.  Guards merged with `or` and guards written one after the other read alike."""
@@ -845,6 +875,39 @@ def _inline_new_helpers(trees, known):
     return trees
 
 
+class _StarSliceArgs(ast.NodeTransformer):
+    """Normal form (behaviour-preserving): `NT(*row[k:])` where NT is a namedtuple of the package with n fields is read as `NT(row[k], ..., row[k+n-1])`."""
+
+    def __init__(self, arity):
+        self.arity = arity
+
+    def visit_Call(self, node):
+        self.generic_visit(node)
+        name = node.func.id if isinstance(node.func, ast.Name) else (node.func.attr if isinstance(node.func, ast.Attribute) else None)
+        if name in self.arity and len(node.args) == 1 and not node.keywords and isinstance(node.args[0], ast.Starred):
+            v = node.args[0].value
+            if isinstance(v, ast.Subscript) and isinstance(v.value, ast.Name) and isinstance(v.slice, ast.Slice) and v.slice.upper is None and v.slice.step is None \
+                    and (v.slice.lower is None or (isinstance(v.slice.lower, ast.Constant) and isinstance(v.slice.lower.value, int) and v.slice.lower.value >= 0)):
+                k = v.slice.lower.value if v.slice.lower is not None else 0
+                node.args = [ast.copy_location(ast.Subscript(value=ast.Name(v.value.id, ast.Load()), slice=ast.Constant(k + i), ctx=ast.Load()), node) for i in range(self.arity[name])]
+                ast.fix_missing_locations(node)
+        return node
+
+
+def _namedtuple_arities(trees):
+    out = {}
+    for t in trees:
+        for st in t.body:
+            if isinstance(st, ast.Assign) and len(st.targets) == 1 and isinstance(st.targets[0], ast.Name) and isinstance(st.value, ast.Call) and dotted(st.value.func) in ('namedtuple', 'collections.namedtuple') \
+                    and len(st.value.args) >= 2:
+                f = st.value.args[1]
+                if isinstance(f, (ast.List, ast.Tuple)) and all(isinstance(e, ast.Constant) for e in f.elts):
+                    out[st.targets[0].id] = len(f.elts)
+                elif isinstance(f, ast.Constant) and isinstance(f.value, str):
+                    out[st.targets[0].id] = len(f.value.replace(',', ' ').split())
+    return out
+
+
 def _signatures(trees):
     defs = {}
     for t in trees:
@@ -900,8 +963,12 @@ class Program:
         if known is not None:
             _inline_new_helpers([t for _, _, _, t in parsed], known)
         sigs = _signatures([t for _, _, _, t in parsed])
+        arity = _namedtuple_arities([t for _, _, _, t in parsed])
         for fname, path, src, tree in parsed:
+            tree = _StarSliceArgs(arity).visit(tree)
             tree = _CallConvention(sigs, conv).visit(tree)
+            tree = _DropLocalAnnotations().visit(tree)
+            ast.fix_missing_locations(tree)
             tree = _DeWalrus().visit(tree)
             tree = _StatementForms().visit(tree)
             tree = _SplitOrGuards().visit(tree)
